@@ -539,6 +539,47 @@ func (u *Universe) NestedDanglingOps(rng *rand.Rand, repo, tag string) []*Op {
 	return ops
 }
 
+// LateSubjectOps is a scripted history prefix: an image is tagged whose subject has not been pushed (a
+// referrer may arrive before what it refers to). The subject's layer is then pushed, deleted - nothing
+// that exists refers to it yet - and pushed again; the subject itself arrives, untagged. From then on the
+// tag reaches the subject and through it the layer and the config: deleting any of them is refused.
+func (u *Universe) LateSubjectOps(rng *rand.Rand, repo, tag string) []*Op {
+	u.nonce++
+	mkBlob := func(what string) []byte { return []byte(fmt.Sprintf("%s of late-subject history %d", what, u.nonce)) }
+	push := func(b []byte) *Op {
+		return &Op{Kind: "PushBlob", Repo: repo, Data: b, Digest: Digest(b), Size: int64(len(b)), MediaType: "application/octet-stream"}
+	}
+	cfg0, cfg, layer := mkBlob("referrer config"), mkBlob("subject config"), mkBlob("subject layer")
+	subj := ocispec.Manifest{MediaType: MTImage, Config: desc("application/vnd.oci.image.config.v1+json", cfg), Layers: []ocispec.Descriptor{desc("application/octet-stream", layer)}}
+	subj.SchemaVersion = 2
+	subjData, _ := json.Marshal(subj)
+	sd := desc(MTImage, subjData)
+	ref := ocispec.Manifest{MediaType: MTImage, Config: desc("application/vnd.oci.image.config.v1+json", cfg0), Subject: &sd}
+	ref.SchemaVersion = 2
+	refData, _ := json.Marshal(ref)
+	ops := []*Op{
+		push(cfg0),
+		{Kind: "PushManifest", Repo: repo, Tag: tag, Data: refData, MediaType: MTImage},
+		push(layer),
+	}
+	if rng.IntN(4) > 0 {
+		ops = append(ops, &Op{Kind: "DeleteBlob", Repo: repo, Digest: Digest(layer)}, &Op{Kind: "GetBlob", Repo: repo, Digest: Digest(layer)}, push(layer))
+	}
+	ops = append(ops, push(cfg))
+	if rng.IntN(2) == 0 {
+		ops = append(ops, &Op{Kind: "DeleteBlob", Repo: repo, Digest: Digest(cfg)}, push(cfg))
+	}
+	ops = append(ops,
+		&Op{Kind: "PushManifest", Repo: repo, Data: subjData, MediaType: MTImage},
+		&Op{Kind: "DeleteBlob", Repo: repo, Digest: Digest(layer)},
+		&Op{Kind: "GetBlob", Repo: repo, Digest: Digest(layer)},
+		&Op{Kind: "DeleteBlob", Repo: repo, Digest: Digest(cfg)},
+		&Op{Kind: "DeleteManifest", Repo: repo, Digest: Digest(subjData)},
+		&Op{Kind: "GetManifest", Repo: repo, Digest: Digest(subjData)},
+	)
+	return ops
+}
+
 // LyingChildOps is a scripted history prefix: a manifest of a type the registry does not look into (its
 // bytes are no image manifest), an ordinary image, and a tagged index that lists the first - stated to be
 // an image manifest - in front of the second; then attempts to delete the second image and its layer.
